@@ -1,8 +1,9 @@
 """C20 — CLI options override typeshare.toml; generated config files round-trip (cli/src/config.rs, main.rs)."""
 import itertools, re, tomllib
 from common import *
+import l2
 
-NEEDS = ("cli",)
+NEEDS = ("cli", "runner")
 
 # option name, CLI flag, (toml section, key), index in the model's shared record, language that shows it
 OPTS = [("swift-prefix", "--swift-prefix", ("swift", "prefix"), 0, "swift"),
@@ -13,6 +14,10 @@ OPTS = [("swift-prefix", "--swift-prefix", ("swift", "prefix"), 0, "swift"),
         ("scala-module", "--scala-module-name", ("scala", "module_name"), 5, None),
         ("go-package", "--go-package", ("go", "package"), 6, "go")]
 SRC = "#[typeshare]\npub struct Foo {\n    pub a: Bar,\n    pub url: Url,\n    pub id: u8,\n}\n\n#[typeshare]\npub struct Bar {\n    pub b: Vec<u8>,\n}\n"
+
+
+# identifiers that contain the acronym spellings used by the file-only part
+SRC_ACR = SRC + "\n#[typeshare]\npub struct OAuthClient {\n    pub oauth_scope: String,\n    pub client_id: u8,\n    pub ipv6_addr: String,\n    pub mac_os_api: Url,\n    pub unit: Option<()>,\n}\n"
 
 
 def toml_text(shared, tables):
@@ -185,14 +190,19 @@ def file_only(check):
     for i in range(12 if check.thorough else 4):
         mapped = "Mapped%d" % rng.randint(0, 999)
         dec = "Deco%d" % rng.randint(0, 999)
-        tables = {"swift": {"type_mappings": {"Url": mapped}, "default_decorators": [dec]},
+        # file-only settings; the acronym list also holds mixed-case entries, entries that differ only in case and an
+        # entry given twice (the list must reach the back end as written), the constraint lists are given in a non-sorted order
+        acr = rng.sample(["id", "url", "OAuth", "IPv6", "Id", "ID", "api", "macOS"], rng.randint(2, 5))
+        acr = acr + ([acr[0]] if rng.random() < 0.3 else [])
+        tables = {"swift": {"type_mappings": {"Url": mapped}, "default_decorators": [dec, "Zeta", "Alpha"],
+                            "codablevoid_constraints": ["Sendable", "Equatable"], "default_generic_constraints": ["Sendable", "Codable"]},
                   "kotlin": {"type_mappings": {"Url": mapped}}, "scala": {"type_mappings": {"Url": mapped}},
                   "typescript": {"type_mappings": {"Url": mapped}},
-                  "go": {"type_mappings": {"Url": mapped}, "uppercase_acronyms": ["id", "url"], "no_pointer_slice": True},
+                  "go": {"type_mappings": {"Url": mapped}, "uppercase_acronyms": ["id", "url"] + acr, "no_pointer_slice": rng.random() < 0.5},
                   "python": {"type_mappings": {"Url": mapped}}}
         for L in LANGS:
             with Scratch() as sc:
-                sc.write("ws/proj/src/lib.rs", SRC)
+                sc.write("ws/proj/src/lib.rs", SRC_ACR if L == "go" else SRC)
                 sc.write("ws/typeshare.toml", toml_text({}, tables))
                 r = run_cli(["--lang", L, "-o", sc.path("out." + EXT[L]), "--swift-prefix", "P"] + lang_args(L) + [sc.path("ws/proj/src")],
                             cwd=sc.path("ws/proj"))
@@ -203,6 +213,18 @@ def file_only(check):
                                     impl={"rc": r["rc"]}, failing_input=True)
                     return
                 text = open(sc.path("out." + EXT[L]), encoding="utf-8").read()
+                # "applied unchanged": the binary's output equals what the back end writes when it is handed the very values
+                # of the file (in-process, bypassing cli/src/main.rs)
+                cfg = dict(tables[L], version_header=True, prefix="P" if L == "swift" else "", module_name="",
+                           package={"go": "proto", "scala": "com.example", "kotlin": ""}.get(L, ""))
+                direct = runner([{"op": "generate", "lang": L, "config": cfg, "multi_file": False, "target_os": [],
+                                  "files": [{"src": SRC_ACR if L == "go" else SRC, "crate": "", "file_name": "out", "path": "src/lib.rs"}]}])[0]
+                if "ok" in direct and not text.endswith(direct["ok"].get("", "\0")):
+                    check.violation("%s: the binary's output under the file-only settings differs from the back end run with exactly those "
+                                    "values (the latter is not the tail of the former): %s"
+                                    % (L, l2.text_diff(direct["ok"].get("", ""), text[len(text) - len(direct["ok"].get("", "")):])),
+                                    case={"lang": L, "toml": toml_text({}, tables)}, impl={"output": text[-2500:]}, model=direct, failing_input=True)
+                    return
                 missing = []
                 if mapped not in text:
                     missing.append("type mapping Url -> %s" % mapped)
